@@ -129,6 +129,13 @@ def run(c):
                 c.count(None, nontrivial=False)
             if name == "inertial_to_jacobi_posvel":
                 jac = out
+            if name == "inertial_to_jacobi_posvelacc":
+                jpva = out
+            if name == "inertial_to_jacobi_acc":
+                for k in COMPS_ACC:      # the acc-only variant must agree with the posvelacc variant (real code vs real code)
+                    e = max(abs(getattr(out[i], k) - getattr(jpva[i], k)) for i in range(n)) / scale
+                    if not e <= 64 * n * 2.3e-16:
+                        searchfail.append(("inertial_to_jacobi_acc disagrees with inertial_to_jacobi_posvelacc (variants disagree)", dict(n=n, na=na, ms=ms, comp=k, xs=comps[k], err=e)))
         # search: slot0 = COM (fsum oracle), round trip on the real code
         for k in COMPS_POS + COMPS_VEL:
             com, M = fsum_com(ms, comps[k], na)
@@ -321,7 +328,8 @@ def run(c):
     res = [l for l in q.stdout.splitlines() if l.startswith("RESULT ")]
     if q.returncode != 0 or not res:
         raise Infra("c12 worker failed: " + (q.stdout + q.stderr)[-1500:])
-    sites = json.loads(res[0][7:])
+    wres = json.loads(res[0][7:])
+    sites = wres["sites"]
     ncalls = 0
     seen_routines = set()
     for r in sites:
@@ -333,6 +341,21 @@ def run(c):
         if len(r["pairs"]) > 1:
             searchfail.append(("integrator call sites hand different (N, N_active) splits to a transformation and its inverse",
                                dict(config=r, note="within one run of a fixed particle set every reb_particles_transform_* call must use the same split, otherwise forward and inverse maps are not mutual inverses")))
+    # integrator-level frame covariance (shifted + boosted twin vs original)
+    covw = {}
+    for r in wres["cov"]:
+        name = "%s/%s/%s" % (r["integ"], json.dumps(r["opts"], sort_keys=True), r["kind"])
+        if "error" in r:
+            covw[name] = "error: " + r["error"]
+            continue
+        c.count(("cov", name), nontrivial=True)
+        covw[name] = float("%.3g" % r["worst"])
+        # chaotic amplification of rounding is possible in the encounter families: 1e-7; regular: 1e-9 (offsets are O(10))
+        tol = 1e-9 if r["kind"] == "regular" else 1e-7
+        if not r["worst"] <= tol:
+            searchfail.append(("integrator run is not covariant under a shift + boost of the whole system (the heliocentric/Jacobi maps inside the integrator lose the centre of mass)",
+                               dict(cov=r, shift=[10.0, -7.0, 3.0], boost=[0.3, -0.2, 0.1], tolerance=tol)))
+    c.cov["frame_covariance_worst_abs_error"] = covw
     c.cov["callsite_configs_traced"] = len(sites)
     c.cov["callsite_transform_calls_traced"] = ncalls
     c.cov["callsite_routines_seen"] = sorted(seen_routines)
@@ -371,7 +394,9 @@ def run(c):
         c.corr_break("%d of %d model/implementation lines differ; first: %s" % (ndis, len(lines), first["routine"]), first)
     reported = 0
     for what, rep in searchfail:
-        if "config" in rep:      # call-site finding: keyed by integrator, so another integrator's call sites still alarm
+        if "cov" in rep:
+            key = "frame-covariance:" + rep["cov"]["integ"] + ":" + rep["cov"]["kind"]
+        elif "config" in rep:      # call-site finding: keyed by integrator, so another integrator's call sites still alarm
             key = "callsite-split:" + rep["config"]["integ"]
         else:
             key = what.split(":")[0]
